@@ -58,6 +58,14 @@ def main():
             return _pe(*a, **k)
         traceback.format_exception, traceback.print_exception = my_format_exception, my_print_exception
         warnings.simplefilter('ignore', category=ResourceWarning)
+    if spec.get('pre_parse'):
+        # an earlier use of the option parser in this interpreter (an embedding program that parsed another command line, an
+        # earlier run with other options): what it was given must not reach the observed run
+        from zope.testrunner.options import get_options as _go
+        try:
+            _go(['prog'] + list(spec['pre_parse']), [])
+        except SystemExit:
+            pass
     if spec.get('warmup_world'):
         # an earlier run, in this interpreter, of ANOTHER program state: the world's module is loaded with a different world
         # (same layer names, other base relations), run, and dropped again; what the runner remembers of it must not matter
